@@ -280,14 +280,22 @@ impl Vm {
     let arg_count = self.read_short() as usize;
     let args = self.fiber.stack_slice(arg_count);
 
+    // a user defined str() may answer something other than a string
+    // such a value is written in its builtin form
     let mut length: usize = 0;
     for arg in args {
-      length += arg.to_obj().to_str().len();
+      if arg.is_obj_kind(ObjectKind::String) {
+        length += arg.to_obj().to_str().len();
+      }
     }
 
     let mut buffers = String::with_capacity(length);
     for arg in args {
-      buffers.push_str(&arg.to_obj().to_str())
+      if arg.is_obj_kind(ObjectKind::String) {
+        buffers.push_str(&arg.to_obj().to_str())
+      } else {
+        buffers.push_str(&arg.to_string())
+      }
     }
 
     self.fiber.drop_n(arg_count);
